@@ -265,23 +265,35 @@ func (g *Gateway) queryHandler(w http.ResponseWriter, r *http.Request) {
 				}, nil
 			}
 
-			introspectionRes := g.parseIntrospectionQuery(plan, request)
-			if introspectionRes != nil {
-				introspectionRes.index = index
-				return introspectionRes, nil
+			// the fields the gateway answers itself (__schema, __type, __typename of the operation)
+			// are taken out of the plan, the plan itself can be shared and stays as it is
+			internalData, servicePlan := g.resolveInternalSteps(plan, operation, request)
+			if len(servicePlan.RootSteps) == 0 && len(plan.RootSteps) > 0 {
+				return &Result{
+					Data:   internalData,
+					Errors: nil,
+
+					index: index,
+				}, nil
 			}
 
-			queryers := g.getQueryers(planningContext, plan.RootSteps)
+			queryers := g.getQueryers(planningContext, servicePlan.RootSteps)
 
 			// fire the query
 			result, err = g.executor.Execute(&executor.ExecutionContext{
-				QueryPlan:               plan,
+				QueryPlan:               servicePlan,
 				Request:                 request,
 				Queryers:                queryers,
 				GetParentTypeFromIDFunc: g.getParentTypeFromIDFunc,
 			})
 
 			plan.ScrubFields.Clean(result)
+
+			if result != nil {
+				for key, value := range internalData {
+					result[key] = value
+				}
+			}
 
 			return &Result{
 				Errors: gqlerrors.FormatError(err),
@@ -301,24 +313,43 @@ func (g *Gateway) queryHandler(w http.ResponseWriter, r *http.Request) {
 
 }
 
-func (g *Gateway) parseIntrospectionQuery(plan *planner.QueryPlan, request *requests.Request) *Result {
-	for _, rs := range plan.RootSteps {
-		if rs.URL == common.InternalServiceName {
-			ir := &introspection.IntrospectionResolver{
-				Variables: request.Variables,
-			}
+// resolveInternalSteps answers the root steps which belong to the gateway itself and returns
+// their data together with a plan made of the remaining, service owned root steps
+func (g *Gateway) resolveInternalSteps(plan *planner.QueryPlan, operation *ast.OperationDefinition, request *requests.Request) (map[string]interface{}, *planner.QueryPlan) {
+	data := make(map[string]interface{})
+	servicePlan := &planner.QueryPlan{ScrubFields: plan.ScrubFields}
 
-			introspectionFields := ir.ResolveIntrospectionFields(rs.SelectionSet, g.schema)
-			if introspectionFields != nil {
-				return &Result{
-					Data:   introspectionFields,
-					Errors: nil,
-				}
+	for _, rs := range plan.RootSteps {
+		if rs.URL != common.InternalServiceName {
+			servicePlan.RootSteps = append(servicePlan.RootSteps, rs)
+			continue
+		}
+
+		ir := &introspection.IntrospectionResolver{
+			Variables: request.Variables,
+		}
+
+		for key, value := range ir.ResolveIntrospectionFields(rs.SelectionSet, g.schema) {
+			data[key] = value
+		}
+
+		// __typename of the operation's root type
+		for _, f := range common.SelectionSetToFields(rs.SelectionSet, nil) {
+			if f.Name != common.TypenameFieldName {
+				continue
+			}
+			switch operation.Operation {
+			case ast.Mutation:
+				data[f.Alias] = g.schema.Mutation.Name
+			case ast.Subscription:
+				data[f.Alias] = g.schema.Subscription.Name
+			default:
+				data[f.Alias] = g.schema.Query.Name
 			}
 		}
 	}
 
-	return nil
+	return data, servicePlan
 }
 
 func (g *Gateway) getQueryers(planningCtx *planner.PlanningContext, planSteps []*planner.QueryPlanStep) map[string]queryer.Queryer {
